@@ -49,6 +49,37 @@ def c16(tier, seed):
             jobs.append(Job("query3-%d" % i, H, ["query", 3, i, 8], weight=4))
     return jobs
 
+
+def forbid(key):
+    def g(stats, outcomes):
+        if stats.get(key, 0) > 0:
+            return "%s=%d (must be 0)" % (key, stats.get(key, 0))
+    return g
+
+
+# ---------------------------------------------------------------- C18
+@prop("C18", "exploration",
+      "every string of length 1..3 over all 256 byte values through MD5, MurmurHash3 x86_32 / x64_128, FNV-1 32/64 "
+      "against independent references; every length 1..600 and 1023..1025, 4095..4097, 65535..65537 x buffer "
+      "alignment 0..15 x content classes (zero, 0xff, incrementing, LCG, one non-zero byte / one NUL byte walking "
+      "through every position) in exactly-ending heap blocks, repeated at another address with different trailing "
+      "bytes (purity); qhashmd5_file over sizes 0..130, 32767..32769, 65537 x (offset, nbytes) grid. "
+      "non-trivial = contains a NUL byte or is longer than one byte",
+      ["reference implementations in engines/inputmc/c18.c, anchored at start-up on RFC 1321 / MurmurHash3 / FNV published vectors",
+       "little-endian host"],
+      [need("evaluations", 1000000), forbid("anchor_fail")])
+def c18(tier, seed):
+    H = ["inputmc/c18.c"]
+    jobs = [Job("small-len1", H, ["small", 1, 0, 256], weight=0.01), Job("small-len2", H, ["small", 2, 0, 256], weight=0.2),
+            Job("file", H, ["file"], weight=2)]
+    n = 32
+    for i in range(n):
+        jobs.append(Job("small-len3-%02d" % i, H, ["small", 3, i * 256 // n, (i + 1) * 256 // n], weight=5))
+    ng = 16
+    for i in range(ng):
+        jobs.append(Job("grid-%02d" % i, H, ["grid", i, ng, 1 if tier == "thorough" else 0], weight=6))
+    return jobs
+
 NOT_YET = {}
 ENGINES = [
     {"name": "inputmc", "path": "engines/inputmc", "serves_properties": ["C16", "C17", "C18", "C19", "C20"],
